@@ -11,11 +11,13 @@ import (
 
 // The prelude defines the observers used by the precedence chunks.
 //
-// RN(f) calls f(A,B,C,D,E) under four leaf valuations: integers, numeric
-// strings, floats and "symbolic" tables whose metatable makes every
+// RN(f) calls f(A,B,C,D,E) under eight leaf valuations: integers, numeric
+// strings, floats, and five "symbolic" ones: tables whose metatable makes every
 // arithmetic/bitwise/concat/length operator total and returns a new symbolic
 // value named after the operation and its operands (so the final value spells
-// the evaluated tree), and whose comparison metamethods log their operands.
+// the evaluated tree), and whose comparison metamethods log their operands;
+// four of them replace some leaves by false/nil so that and/or take the other
+// branch.
 // RL(f) calls a function whose leaves are literals.
 const precPrelude = `
 local mt = {}
